@@ -21,6 +21,7 @@ import TboxModel.Util
 import TboxModel.C17.Model
 import TboxModel.C17.Spec
 import TboxModel.C17.Inv
+import TboxModel.C17.Exec
 open Tbox.Util Tbox.C17
 
 def mode3? : String → Option Mode3
@@ -203,7 +204,43 @@ partial def hasParL : TL → Bool
   | .cons t ts => hasPar t || hasParL ts
 end
 
+def xShowSt (s : Exec.XS) : String :=
+  if s.idc = 0 then "-" else
+  String.join ((List.range s.idc).map fun i =>
+    match (s.q0 ++ s.q1 ++ s.q2).find? (fun a => a.id == i + 1) with
+    | some a => (match a.st with | .idle => "I" | .running => "R" | .pause => "P" | .finished => "F" | .stoped => "S")
+    | none => "x")
+
+def xShowEv : Exec.XEv → String
+  | .started id => s!"xstarted {id}"
+  | .finished id => s!"xfinished {id}"
+  | .allFinished => "xall"
+
+def parseXOp (xs : Option Exec.XS) (ws : List String) : Option Exec.XOp :=
+  match ws with
+  | ["xapp", k, p] =>
+      match p.toNat? with
+      | some p =>
+        if p > 2 || (match xs with | some s => s.idc ≥ 30 | none => false) then none else
+        match k with
+        | "D" => some (.append .dummy p) | "Fs" => some (.append (.func true) p) | "Ff" => some (.append (.func false) p)
+        | "X" => some (.append .dead p) | _ => none
+      | none => none
+  | ["xcancel", n] => if xs.isNone then none else match n.toNat? with | some n => if n ≥ 1 && n ≤ 1000 then some (.cancel n) else none | none => none
+  | ["xcancelcur"] => if xs.isNone then none else some .cancelCurrent
+  | ["xcancelall"] => if xs.isNone then none else some .cancelAll
+  | ["xemit", n, r] =>
+      if xs.isNone then none else
+      match n.toNat? with
+      | some n => if n ≥ 1 && n ≤ 1000 then (if r == "s" then some (.emit n true) else if r == "f" then some (.emit n false) else none) else none
+      | none => none
+  | ["xpass"] => if xs.isNone then none else some .pass
+  | _ => none
+
 structure DS where
+  xs : Option Exec.XS := none
+  xstarted : List Nat := []
+  xfinished : List Nat := []
   tree : Option (T × Nat) := none
   g : G := {}
   cfg : Cfg := {}
@@ -251,12 +288,38 @@ def stepLine (ds : DS) (line : String) : DS × List String :=
           else (ds, ["bad-op"])
       | _ => (ds, ["bad-op"])
   | "tree" :: toks =>
+      if ds.xs.isSome then (ds, ["bad-op"]) else
       match parseTree toks with
       | none => (ds, ["bad-op"])
       | some (t, n) =>
           ({ tree := some (t, n), g := { cfg := ds.cfg }, cfg := ds.cfg, nops := ds.nops },
            [s!"P tree n={n} s={snapshot t}"])
   | opw :: args =>
+    if opw.startsWith "x" then
+      -- ActionExecutor ops (only in a case without a tree)
+      if ds.tree.isSome then (ds, ["bad-op"]) else
+      match parseXOp ds.xs ws with
+      | none => (ds, ["bad-op"])
+      | some op =>
+        let s0 : Exec.XS := { (ds.xs.getD {}) with log := [] }
+        let (s1', r) := Exec.xstep s0 op
+        -- the rest of the loop pass: queued finish notifications run (each calls schedule())
+        let s1 := (Exec.xstep s1' .pass).1
+        let evs := s1.log.reverse
+        -- monitors: one action running at a time; callbacks once per action
+        let running := ((s1.q0 ++ s1.q1 ++ s1.q2).filter fun a => a.st == .running).length
+        let mon := (if running > 1 then ["P MONITOR executor-runs-two-actions"] else [])
+          ++ (if Exec.xinv s1 then [] else ["P MONITOR executor-invariant-broken"])
+          ++ (if (evs.filterMap fun e => match e with | .started i => some i | _ => none).any
+                  (fun i => (ds.xstarted.contains i)) then ["P MONITOR executor-started-callback-twice"] else [])
+          ++ (if (evs.filterMap fun e => match e with | .finished i => some i | _ => none).any
+                  (fun i => (ds.xfinished.contains i)) then ["P MONITOR executor-finished-callback-twice"] else [])
+        ({ ds with xs := some s1,
+                   xstarted := ds.xstarted ++ (evs.filterMap fun e => match e with | .started i => some i | _ => none),
+                   xfinished := ds.xfinished ++ (evs.filterMap fun e => match e with | .finished i => some i | _ => none) },
+         ["B x-" ++ opw] ++ evs.map (fun e => "P e " ++ xShowEv e) ++ mon ++ [s!"P x r={r} cur={Exec.current s1} st={xShowSt s1}"])
+    else
+    if ds.xs.isSome then (ds, ["bad-op"]) else
     match ds.tree with
     | none => (ds, ["bad-op"])
     | some (t, n) =>
